@@ -813,6 +813,27 @@ class Checker:
                    line=pth.ret_line)
         rep.floor('R19.11', 'non-None returns of getCom', n, 1)
 
+    def r1912(self):
+        """The forwarding table holds endpoint OBJECTS; `destination not in rules`, `rules.remove(destination)` and the exactly-once delivery loop
+        all decide by equality.  Endpoints are distinct channels exactly when they are distinct objects (default identity equality): an
+        __eq__ / __hash__ on the endpoint classes that calls two registered endpoints equal (same display name, same type, ...) merges their
+        rules - the second registration is refused, one removal deletes the other's rule."""
+        rep = self.rep
+        rep.rule('R19.12', 'endpoint classes (CommsObject and its subclasses) keep identity equality: none defines __eq__ / __ne__ / __hash__, on which the rule tables\' '
+                           'membership tests and removals rely')
+        base = self.model.cls('basic_robotics.interfaces.comms_object', 'CommsObject')
+        if base is None:
+            raise AnalysisError('anchor vanished: CommsObject')
+        classes = [base] + [c for c in self.model.subclasses(base) if c is not base]
+        for c in classes:
+            present = [h for h in ('__eq__', '__ne__', '__hash__') if h in c.methods]
+            rep.ob('R19.12', c.methods[present[0]] if present else (next(iter(c.methods.values())) if c.methods else c.module.relpath),
+                   '%s compares by identity' % c.name, not present,
+                   '%s defines %s: two distinct registered endpoints that this equality calls equal are one destination for the hub - `not in` refuses the second '
+                   'forwarding rule although the rule set would change, `remove` deletes the other endpoint\'s rule, and messages reach one of them only'
+                   % (c.name, ', '.join(present)), qualname=c.name)
+        rep.floor('R19.12', 'endpoint classes', len(classes), 2)
+
     def _table_refs(self, t):
         """tables written by storing to / mutating expression t (any receiver whose attribute is a table name,
         restricted to receivers that can be a Comms: `self` inside Comms, or any non-self receiver)."""
@@ -841,3 +862,4 @@ def check(model, rep):
     ck.r199()
     ck.r1910()
     ck.r1911()
+    ck.r1912()
